@@ -1,6 +1,7 @@
 package props
 
 import (
+	"sync"
 	"fmt"
 	"github.com/aml-org/amf-custom-validator/pkg/config"
 	"sort"
@@ -58,7 +59,7 @@ func getObs(obs map[string]*c02obs, k string) *c02obs {
 func C02(e *core.Env) {
 	res := e.Res
 	res.Rule = "cases = (path, graph, focus node); paths: every path with <= 2 leaves over ex.a ex.b ex.c forward/inverse and @type plus a seeded sample with 3-4 (quick) / all with 3 and a sample with 4-5 (thorough), plus every 3-part (and a sample of 4-part) sequence whose parts are a predicate, a parenthesised sequence or a parenthesised alternative; for every third path and all of the latter the three observing constraints are ALSO written under one path key and must see the same values; " +
-		"a history (paths over the built-in prefix core. before / after a profile that rebinds core was compiled); graphs: hand-made (cycle, diamond, self loop, literal and dangling link mid-path) + seeded random; observables: strings of reached values, number of distinct values, nodes reached for nested; " +
+		"a history (paths over the built-in prefix core. before / after a profile that rebinds core was compiled);the same paths and graph with the vocabulary under five namespaces that do not end in `#` (URN, query-style, `/`, tag:), report renamed back; the same profile validated while 4 goroutines compile another profile in a loop; graphs: hand-made (cycle, diamond, self loop, literal and dangling link mid-path) + seeded random; observables: strings of reached values, number of distinct values, nodes reached for nested; " +
 		"non-trivial = the path reaches at least one value from that node; distinct by (path, graph, node)"
 	leaves := []PExp{Pr("ex.a", false), Pr("ex.b", false), Pr("ex.c", false), Pr("ex.a", true), Pr("ex.b", true), Pr("ex.c", true), Pr("@type", false)}
 	paths := []PExp{}
@@ -344,6 +345,78 @@ func C02(e *core.Env) {
 		}
 		res.Case("history|builtin-prefix-paths", strings.Contains(before, "\"result\""))
 		res.Count("stream=history")
+	}
+	// namespaces: the same graph and the same paths with the vocabulary moved to namespaces that do not end in `#`
+	// (a URN, a query-style namespace, a `/` namespace): after renaming the namespace back the report is the same
+	{
+		hp := []PExp{paths[0], paths[3], paths[7], paths[30], paths[60], paths[len(paths)-1], paths[len(paths)-5], paths[len(paths)-9]}
+		mk := func(ns string) string {
+			var b strings.Builder
+			b.WriteString("#%Validation Profile 1.0\nprofile: gen\nprefixes:\n  ex: \"" + ns + "\"\nviolation:\n")
+			for i := range hp {
+				fmt.Fprintf(&b, "  - h%d-in\n  - h%d-cnt\n  - h%d-min\n", i, i, i)
+			}
+			b.WriteString("validations:\n")
+			for i, p := range hp {
+				ps := yamlQuote(p.Canon())
+				fmt.Fprintf(&b, "  h%d-in:\n    targetClass: ex.T\n    propertyConstraints:\n      %s:\n        in: [ __no_such_value__ ]\n", i, ps)
+				fmt.Fprintf(&b, "  h%d-cnt:\n    targetClass: ex.T\n    propertyConstraints:\n      %s:\n        maxCount: 0\n", i, ps)
+				fmt.Fprintf(&b, "  h%d-min:\n    targetClass: ex.T\n    propertyConstraints:\n      %s:\n        minCount: 1\n", i, ps)
+			}
+			return b.String()
+		}
+		rc := config.DefaultReportConfiguration()
+		dataEx := hand.JSONLD()
+		run := func(p, d string) string {
+			o, err := pkg.ValidateWithConfiguration(p, d, false, nil, clockA, rc)
+			if err != nil {
+				return "error: " + err.Error()
+			}
+			return o
+		}
+		ref := run(mk(ExNS), dataEx)
+		for _, ns := range []string{"urn:example:ns:", "http://example.org/q?term=", "http://example.org/ns/", "http://example.org/ns#sub-", "tag:example.org,2026:"} {
+			d := strings.ReplaceAll(dataEx, ExNS, ns)
+			got := strings.ReplaceAll(run(mk(ns), d), ns, ExNS)
+			if got != ref {
+				res.Violate("impl-violates-property", "the same paths over the same graph reach other values when the vocabulary's namespace is `"+ns+"` instead of `"+ExNS+"`",
+					map[string]any{"profile": mk(ns), "data": d, "namespace": ns, "reference_namespace": ExNS, "first_diff_line": firstDiff(ref, got), "mode": "namespace renamed in profile and data, report renamed back"})
+			}
+			res.Case("namespace|"+ns, strings.Contains(ref, "\"result\""))
+			res.Count("stream=namespace-forms")
+		}
+		// while other profiles are being compiled in the process: the values a path reaches do not depend on it
+		other := "#%Validation Profile 1.0\nprofile: Other\nprefixes:\n  ex: http://elsewhere.example/ex#\nviolation:\n  - o\nvalidations:\n  o:\n    targetClass: ex.T\n    message: other\n    propertyConstraints:\n      ex.a / ex.b:\n        minCount: 1\n"
+		victim := mk(ExNS)
+		stop := make(chan struct{})
+		var wg sync.WaitGroup
+		for w := 0; w < 4; w++ {
+			wg.Add(1)
+			go func() {
+				defer wg.Done()
+				defer func() { recover() }()
+				for {
+					select {
+					case <-stop:
+						return
+					default:
+					}
+					pkg.CompileProfile(other, false, nil)
+				}
+			}()
+		}
+		for round := 0; round < e.Pick(6, 30); round++ {
+			got := run(victim, dataEx)
+			if got != ref {
+				res.Violate("impl-violates-property", "the values the paths of a profile reach differ when other profiles are compiled in the process at the same time",
+					map[string]any{"profile": victim, "data": dataEx, "other_profile_compiled_in_a_loop_by_4_goroutines": other, "round": round, "first_diff_line": firstDiff(ref, got), "mode": "validation while other profiles compile"})
+				break
+			}
+			res.Case(fmt.Sprintf("while-others-compile|%d", round), strings.Contains(ref, "\"result\""))
+			res.Count("stream=while-others-compile")
+		}
+		close(stop)
+		wg.Wait()
 	}
 	kinds := []string{}
 	for k := range res.Distribution {
